@@ -323,16 +323,31 @@ func (P *Program) guardsOf(fn *ssa.Function) *funcGuards {
 		if isIf(a0) == nil {
 			continue
 		}
-		for side := 0; side < 2; side++ { // side 0: AND-chain (continue on true, exit T on false); side 1: OR-chain
-			T := a0.Succs[1-side]
+		for e0 := 0; e0 < 2; e0++ {
+			// chain of branches that all have one arm into the common target T (the arm may be the true arm of one
+			// test and the false arm of the next: `if a || !b { T }`); T is reached from the chain iff some test takes
+			// its arm into T
+			T := a0.Succs[e0]
 			chain := []*ssa.BasicBlock{a0}
+			exits := []int{e0}
 			cur := a0
 			for {
-				nxt := cur.Succs[side]
-				if isIf(nxt) == nil || len(nxt.Preds) != 1 || nxt.Succs[1-side] != T || nxt == a0 {
+				nxt := cur.Succs[1-exits[len(exits)-1]]
+				if isIf(nxt) == nil || len(nxt.Preds) != 1 || nxt == a0 || nxt == T {
+					break
+				}
+				e := -1
+				switch {
+				case nxt.Succs[0] == T:
+					e = 0
+				case nxt.Succs[1] == T:
+					e = 1
+				}
+				if e < 0 {
 					break
 				}
 				chain = append(chain, nxt)
+				exits = append(exits, e)
 				cur = nxt
 			}
 			if len(chain) < 2 {
@@ -340,19 +355,34 @@ func (P *Program) guardsOf(fn *ssa.Function) *funcGuards {
 			}
 			for n := 2; n <= len(chain); n++ {
 				sub := chain[:n]
-				if sub[n-1].Succs[side] == T {
-					continue
-				}
+				allFalse, allTrue := true, true
 				var fs []*formula
-				for _, b := range sub {
-					fs = append(fs, P.condFormula(isIf(b).Cond, 0))
+				for i, b := range sub {
+					f := P.condFormula(isIf(b).Cond, 0)
+					if exits[i] == 0 {
+						allFalse = false
+					} else {
+						allTrue = false
+					}
+					fs = append(fs, f)
 				}
-				op := "and"
-				if side == 1 {
-					op = "or"
+				var lits []Lit
+				switch {
+				case allFalse: // if c0 && c1 ... { R } else { T }
+					lits = literals(&formula{op: "and", sub: fs}, false)
+				case allTrue: // if c0 || c1 ... { T }
+					lits = literals(&formula{op: "or", sub: fs}, true)
+				default:
+					var ms []*formula
+					for i, f := range fs {
+						if exits[i] == 0 {
+							ms = append(ms, f)
+						} else {
+							ms = append(ms, &formula{op: "not", sub: []*formula{f}})
+						}
+					}
+					lits = literals(&formula{op: "or", sub: ms}, true)
 				}
-				comp := &formula{op: op, sub: fs}
-				lits := literals(comp, side == 1)
 				for i := range lits {
 					lits[i].Fn = fn
 					g.all[lits[i].String()] = lits[i]
